@@ -1,6 +1,6 @@
 /-
-C17 — model of `caddyfile.Format` (caddyconfig/caddyfile/formatter.go:29-311), transliterated
-statement by statement: the 16 local variables of the rune loop are the fields of `FState`,
+C17 — model of `caddyfile.Format` (caddyconfig/caddyfile/formatter.go, as repaired in the fix
+round: patches C17-01..09), transliterated statement by statement: the local variables of the rune loop are the fields of `FState`,
 one loop iteration is `step`, `continue` is "return the state".  The output buffer is kept
 REVERSED (`rout`, newest rune first) so that `write` is a cons and `last` is its head; the
 two `bytes.TrimSpace` calls become `trimSpace` on rune lists (rune boundaries of a Go byte
@@ -25,11 +25,13 @@ structure FState where
   quoted : Bool := false
   escaped : Bool := false
   heredoc : Nat := 0              -- 0 heredocClosed, 1 heredocOpening, 2 heredocOpened
+  heredocStart : Bool := false    -- the previous character was a `<` that begins a token
   heredocEscaped : Bool := false
   marker : List Rune := []        -- heredocMarker
   closing : List Rune := []       -- heredocClosingMarker
   nesting : Nat := 0
-  withinBackquote : Bool := false
+  backquoted : Bool := false      -- inside a token that started with a backquote
+  tokenEnded : Bool := false      -- the previous character closed a quoted segment (a new token starts here)
 deriving DecidableEq, Repr
 
 /-- `write(ch)` -/
@@ -54,9 +56,9 @@ def FState.nextLines (s : FState) : Nat → FState
 /-! The loop body, bottom-up (each def is one stretch of the Go loop body; the Go statement it
 mirrors is quoted above it). -/
 
-/-- `if spacePrior && ch == '<' { space = true }; write(ch); beginningOfLine = false` (296-302) -/
-def stepWord6 (s : FState) (spacePrior : Bool) (ch : Rune) : FState :=
-  { (if spacePrior && ch == rLT then { s with space := true } else s).write ch with bol := false }
+/-- `write(ch); beginningOfLine = false` (the `heredocStart` update in between is in `stepRegular`) -/
+def stepWord6 (s : FState) (_spacePrior : Bool) (ch : Rune) : FState :=
+  { s.write ch with bol := false }
 
 /-- `if openBrace && !openBraceWritten { write('{'); openBraceWritten = true }` (291-294) -/
 def stepWord5 (s : FState) (spacePrior : Bool) (ch : Rune) : FState :=
@@ -99,64 +101,71 @@ def flush4 (s : FState) : FState :=
 /-- lines 218-238: the pending `{` is written, followed by a newline, when the next word starts -/
 def flushOpen (s : FState) : FState := flush4 (flush3 (flush2 (flush1 s)))
 
-/-- lines 240-270: the `switch` on braces, then the ordinary-character tail -/
+/-- the `switch` on braces, then the ordinary-character tail -/
 def stepBrace (s : FState) (spacePrior : Bool) (ch : Rune) : FState :=
   if ch == rOpen then
     -- openBrace = true; openBraceSpace = spacePrior && !beginningOfLine; if openBraceSpace { write(' ') }
-    -- openBraceWritten = false; if withinBackquote { write('{'); openBraceWritten = true }; continue
-    if s.withinBackquote then
-      { ((if spacePrior && !s.bol then s.write rSP else s).write rOpen) with
-          openBrace := true, openBraceSpace := spacePrior && !s.bol, openBraceWritten := true }
-    else
-      { (if spacePrior && !s.bol then s.write rSP else s) with
-          openBrace := true, openBraceSpace := spacePrior && !s.bol, openBraceWritten := false }
+    -- openBraceWritten = false; continue
+    { (if spacePrior && !s.bol then s.write rSP else s) with
+        openBrace := true, openBraceSpace := spacePrior && !s.bol, openBraceWritten := false }
   else if ch == rClose && (spacePrior || !s.openBrace) then
-    if s.withinBackquote then s.write rClose
-    else
-      -- if last != '\n' { nextLine() }; if nesting > 0 { nesting-- }; indent(); write('}'); newLines = 0
-      { ((({ (if s.last != rNL then s.nextLine else s) with nesting := s.nesting - 1 }).indent).write rClose) with newLines := 0 }
+    -- if last != '\n' { nextLine() }; if nesting > 0 { nesting-- }; indent(); write('}'); newLines = 0
+    { ((({ (if s.last != rNL then s.nextLine else s) with nesting := s.nesting - 1 }).indent).write rClose) with newLines := 0 }
   else stepWord s spacePrior ch
 
 /-- `if openBrace && spacePrior && !openBraceWritten { … }` (218) -/
 def stepRegular2 (s : FState) (spacePrior : Bool) (ch : Rune) : FState :=
   stepBrace (if s.openBrace && spacePrior && !s.openBraceWritten then flushOpen s else s) spacePrior ch
 
-/-- lines 206-216: "we know we are in a regular part of the file"; `if ch == '#' { comment = true }` -/
-def stepRegular (s : FState) (spacePrior : Bool) (ch : Rune) : FState :=
-  stepRegular2 (if ch == rHash then { s with comment := true } else s) spacePrior ch
+/-- "we know we are in a regular part of the file".  `tokenStart := spacePrior || tokenEnded`;
+    `if ch == '#' && tokenStart { comment = true }`; …; `if tokenStart && ch == '<' { heredocStart = true }`
+    (that statement sits just before the final `write(ch)`, which only `<` as an ordinary
+    character reaches; nothing reads the flag in between) -/
+def stepRegular (s : FState) (spacePrior tokenStart : Bool) (ch : Rune) : FState :=
+  if tokenStart && ch == rLT then
+    { stepRegular2 s spacePrior ch with heredocStart := true }
+  else stepRegular2 (if ch == rHash && tokenStart then { s with comment := true } else s) spacePrior ch
 
-/-- lines 152-204: comments, escapes, quotes, whitespace -/
-def stepLiteral2 (s : FState) (ch : Rune) : FState :=
+/-- comments, backquoted and quoted segments, escapes, whitespace -/
+def stepLiteral (s : FState) (ch : Rune) : FState :=
   if s.comment then
     if ch == rNL then ({ s with comment := false, space := true }).nextLine
     else s.write ch
+  else if s.backquoted then
+    -- literal up to the closing backquote (no escapes inside); the lexer starts a new token after it
+    { s.write ch with backquoted := !(ch == rBQ), tokenEnded := (if ch == rBQ then true else s.tokenEnded) }
   else if !s.escaped && ch == rBS then
-    { ((if s.space then { s.write rSP with space := false } else s).write ch) with escaped := true }
+    { ((if s.space then { s.write rSP with space := false } else s).write ch) with escaped := true, tokenEnded := false }
   else if s.escaped then
-    { ((if ch == rLT then { s with heredocEscaped := true } else s).write ch) with escaped := false }
+    -- an escaped newline (outside quotes) separates tokens like white space
+    { ((if ch == rLT then { s with heredocEscaped := true } else s).write ch) with
+        escaped := false, space := (if ch == rNL && !s.quoted then true else s.space) }
   else if s.quoted then
-    { s.write ch with quoted := !(ch == rDQ) }
+    { s.write ch with quoted := !(ch == rDQ), tokenEnded := (if ch == rDQ then true else s.tokenEnded) }
   else if isSpace ch then
-    { s with space := true, heredocEscaped := false, newLines := s.newLines + (if ch == rNL then 1 else 0) }
+    -- CR is ignored altogether, as in the lexer
+    if ch == rCR then s
+    else { s with space := true, tokenEnded := false, heredocEscaped := false,
+                  newLines := s.newLines + (if ch == rNL then 1 else 0) }
   else
-    -- if space && ch == '"' { quoted = true }; spacePrior := space; space = false
-    stepRegular { s with quoted := s.space && ch == rDQ, space := false } s.space ch
-
-/-- `if last == '<' && space { space = false }` (148-150) -/
-def stepLiteral (s : FState) (ch : Rune) : FState :=
-  stepLiteral2 (if s.last == rLT && s.space then { s with space := false } else s) ch
+    -- if (space || tokenEnded) && ch == '"' { quoted = true }; … '`' { backquoted = true }
+    -- spacePrior := space; space = false; tokenStart := spacePrior || tokenEnded; tokenEnded = false
+    stepRegular { s with quoted := (s.space || s.tokenEnded) && ch == rDQ,
+                         backquoted := (s.space || s.tokenEnded) && ch == rBQ, space := false, tokenEnded := false }
+      s.space (s.space || s.tokenEnded) ch
 
 /-- `heredocClosingMarker = append(…, ch); if len > len(marker)+1 { closing = closing[1:] }` -/
 def pushClosing (closing marker : List Rune) (ch : Rune) : List Rune :=
   if (closing ++ [ch]).length > marker.length + 1 then (closing ++ [ch]).drop 1 else closing ++ [ch]
 
-/-- lines 105-146: heredoc marker collection and heredoc body -/
+/-- heredoc marker collection and heredoc body -/
 def stepHeredoc (s : FState) (ch : Rune) : FState :=
   if s.heredoc == 1 then
     if ch == rNL then
       if markerOK s.marker then ({ s with heredoc := 2 }).write ch
-      else ({ s with marker := [], heredoc := 0 }).nextLine
-    else if isSpace ch then
+      else ({ s with marker := [], heredoc := 0, space := true }).nextLine
+    else if ch == rCR then s      -- skip CR, we only care about LF
+    else if ch == rSP then
       -- a space means it's just a regular token and not a heredoc
       stepLiteral { s with marker := [], heredoc := 0 } ch
     else ({ s with marker := s.marker ++ [ch] }).write ch
@@ -168,15 +177,12 @@ def stepHeredoc (s : FState) (ch : Rune) : FState :=
       { s.write ch with closing := if ch == rNL then [] else pushClosing s.closing s.marker ch }
   else stepLiteral s ch
 
-/-- lines 96-103: "detect whether we have the start of a heredoc" -/
-def step2 (s : FState) (ch : Rune) : FState :=
-  if !s.quoted && !(s.heredoc != 0 || s.heredocEscaped) && s.space && s.last == rLT && ch == rLT then
-    { s.write ch with heredoc := 1, space := false }
-  else stepHeredoc s ch
-
-/-- one iteration of the `for` loop (lines 84-303); 92-94: a backtick toggles `withinBackquote` -/
+/-- one iteration of the `for` loop: "detect whether we have the start of a heredoc"
+    (`heredocStart && ch == '<'`), then `if ch != '\\r' { heredocStart = false }` and the rest -/
 def step (s : FState) (ch : Rune) : FState :=
-  step2 (if ch == rBQ then { s with withinBackquote := !s.withinBackquote } else s) ch
+  if !s.quoted && !(s.heredoc != 0 || s.heredocEscaped) && s.heredocStart && ch == rLT then
+    { s.write ch with heredoc := 1, heredocStart := false }
+  else stepHeredoc { s with heredocStart := s.heredocStart && ch == rCR } ch   -- CR is ignored altogether
 
 /-- `bytes.TrimSpace` on runes -/
 def trimLeft (l : List Rune) : List Rune := l.dropWhile isSpace
@@ -188,8 +194,24 @@ def run (inp : List Rune) : FState := inp.foldl step {}
 /-- `append(bytes.TrimSpace(out.Bytes()), '\n')` for a reversed buffer -/
 def finish (rout : List Rune) : List Rune := (trimLeft (trimLeft rout).reverse) ++ [rNL]
 
-/-- `Format` on runes -/
-def format (inp : List Rune) : List Rune := finish (run (trimSpace inp)).rout
+/-- after the loop: "an opening brace at the very end of the input is still waiting for the
+    token after it; write it rather than dropping it" -/
+def flushEnd (s : FState) : FState :=
+  if s.openBrace && !s.openBraceWritten then
+    (flush2 (flush1 s)).write rOpen
+  else s
+
+/-- `Format` after the empty-input and byte-order-mark prologue -/
+def formatCore (inp : List Rune) : List Rune := finish (flushEnd (run (trimSpace inp))).rout
+
+/-- `Format` on runes: the empty input stays empty ("not a Caddyfile; do not turn it into one");
+    a byte order mark at the beginning of the trimmed input is kept but is not part of the
+    first token (`bytes.TrimSpace`, BOM check, `bytes.TrimSpace` again inside `formatCore`) -/
+def format (inp : List Rune) : List Rune :=
+  if inp.isEmpty then []
+  else match trimSpace inp with
+    | [] => formatCore []
+    | c :: rest => if c = rBOM then rBOM :: formatCore rest else formatCore (c :: rest)
 
 /-- `Format` on bytes (what `caddy fmt` applies to a file) -/
 def formatBytes (b : Bytes) : Bytes := encodeUtf8 (format (decodeUtf8 b))
